@@ -15,7 +15,9 @@
 //            (the old one destroyed), a = it is move-ASSIGNED into another, already used parser object.  The usage text
 //            must not depend on any of them.
 //   groups : an entry "name:descr:L" is a group created LATE (together with the late options)
-//   an opt whose kind letter is upper case (O|M|T) is declared LATE: after a first usage() call has already been made
+//   an opt of kind r (R) RE-REQUESTS an already declared option (same name, kind, group) with another description and applies
+//   the setters of its word to the returned object: short/env/metavar "-" = not set, default n = not set, flag 1 = optional()/allow_reverse()
+//   an opt whose kind letter is upper case (O|M|T|R) is declared LATE: after a first usage() call has already been made
 //   observation  "T <hex text>"  when a fresh stringstream, a stringstream holding `prior`, an ostream over a
 //   non-seekable streambuf (tellp() == -1) and std::cout (rdbuf swapped, non-seekable) all received the same text,
 //   otherwise "STREAMS-DIFFER <fresh> <prior> <nonseekable> <cout>"; "USAGE-CHANGED <first> <second>" when two usage()
@@ -189,7 +191,17 @@ static std::string run_usage(const std::vector<std::string>& w)
                 const bool is_late = f[0][0] >= 'A' && f[0][0] <= 'Z';
                 if (is_late) any_late = true;
                 if (is_late != late) continue;
-                const char kind = static_cast<char>(is_late ? f[0][0] - 'A' + 'a' : f[0][0]);
+                char kind = static_cast<char>(is_late ? f[0][0] - 'A' + 'a' : f[0][0]);
+                // kind r: RE-REQUEST an option that is already declared (same name, kind, group), with another description,
+                // and apply the setters given in the word ("-"/n = none) to the object that is returned
+                const bool rerequest = kind == 'r';
+                if (rerequest)
+                {
+                    kind = 0;
+                    for (auto& kn : declared)
+                        if (kn.second == unhex(f[2])) kind = kn.first;
+                    if (!kind) { bad = true; return; }
+                }
                 std::size_t gi = std::stoul(f[1]);
                 if (gi >= groups.size() || !groups[gi]) { bad = true; return; }
                 no::group& g = *groups[gi];
@@ -202,7 +214,7 @@ static std::string run_usage(const std::vector<std::string>& w)
                     auto& o = g.option(name, descr);
                     if (f[3] != "-") o.short_name(unhex(f[3]));
                     if (!env.empty()) o.env(env);
-                    o.metavar(metavar);
+                    if (!rerequest || !metavar.empty()) o.metavar(metavar);
                     if (f[7][0] == 's') o.default_value(unhex(f[7].substr(1)));
                     if (flag) o.optional();
                     break;
@@ -212,7 +224,7 @@ static std::string run_usage(const std::vector<std::string>& w)
                     auto& o = g.multi_option(name, descr);
                     if (f[3] != "-") o.short_name(unhex(f[3]));
                     if (!env.empty()) o.env(env);
-                    o.metavar(metavar);
+                    if (!rerequest || !metavar.empty()) o.metavar(metavar);
                     if (f[7][0] == 'l') o.default_value(unwire_strs(f[7].substr(1)));
                     if (flag) o.optional();
                     break;
@@ -227,8 +239,8 @@ static std::string run_usage(const std::vector<std::string>& w)
                     }
                     if (f[3] != "-") t->short_name(unhex(f[3]));
                     if (!env.empty()) t->env(env);
-                    t->metavar(metavar);
-                    t->default_value(f[7] == "1");
+                    if (!rerequest || !metavar.empty()) t->metavar(metavar);
+                    if (!rerequest || f[7] != "n") t->default_value(f[7] == "1");
                     if (flag) t->allow_reverse();
                     if (rank >= 0) longs.emplace_back(rank, t);
                     break;
@@ -237,7 +249,7 @@ static std::string run_usage(const std::vector<std::string>& w)
                     bad = true;
                     return;
                 }
-                declared.emplace_back(kind, name);
+                if (!rerequest) declared.emplace_back(kind, name);
             }
         };
         // the parse() calls of hist, on this parser object; whatever they do or raise, usage() must not notice
